@@ -594,6 +594,7 @@ def install(I):
     L["hasattr"] = h_hasattr
     L["getattr"] = h_getattr
     L["setattr"] = h_setattr
+    L["new:object"] = lambda I, st, fv, args, kwargs, ctx: [(st, I.alloc_obj(st, None, lazy=False, label="object()"))]
     L["new:int"] = h_int
     L["new:tuple"] = h_tuple
     L["new:list"] = h_list
